@@ -662,13 +662,14 @@ def HasNode (T : Table) (node : Ty → Bool) (t : Ty) : Prop := ∃ s, Contains 
 /-- Decision procedure used by the monitor (`hasNodeB_iff` relates it to `HasNode`). -/
 def hasNodeB (T : Table) (node : Ty → Bool) (t : Ty) : Bool := (reachList valueChildren T t).any node
 
-/-- Follow alias layers to the defining type (`type a = b`, `use`). -/
+/-- Follow `type a = b` / `use` layers to the defining type id (a type defined as a primitive,
+`type a = u32`, is its own definition). -/
 def aliasTarget (T : Table) : Nat → Ty → Ty
   | 0, t => t
   | _, .prim p => .prim p
   | fuel + 1, .id i =>
     match T[i]? with
-    | some (.alias t) => aliasTarget T fuel t
+    | some (.alias (.id j)) => aliasTarget T fuel (.id j)
     | _ => .id i
 
 /-- The type (after aliases) in the error position of a function result type `r`, where `r`
